@@ -222,7 +222,7 @@ def multiplication(a, b):
 
 
 def division(a, b):
-    return float(a) / float(b)
+    return a / b
 
 
 def eq(a, b):
